@@ -34,6 +34,28 @@ F16_KEY = 'C19-F16:root-rule-used-inline'
 
 # ----------------------------------------------------------------------------------------------------
 # lark side: build, observe
+class CallTimeout(Exception):
+    pass
+
+
+def with_timeout(seconds, fn, *a, **kw):
+    """run fn with a wall-clock limit (a mutant may make the tree matcher loop); main thread only"""
+    import signal
+
+    def handler(signum, frame):
+        raise CallTimeout()
+    try:
+        old = signal.signal(signal.SIGALRM, handler)
+    except ValueError:
+        return fn(*a, **kw)
+    signal.alarm(seconds)
+    try:
+        return fn(*a, **kw)
+    finally:
+        signal.alarm(0)
+        signal.signal(signal.SIGALRM, old)
+
+
 def make_parser(grammar, kind, **kw):
     from lark import Lark
     return Lark(grammar, parser=kind, maybe_placeholders=False, **kw)
@@ -129,7 +151,7 @@ class Obs:
         """-> (matches, items, text, exception-name)"""
         self.matches = []
         try:
-            items = [str(x) for x in self.rec._reconstruct(tree)]
+            items = with_timeout(20, lambda: [str(x) for x in self.rec._reconstruct(tree)])
         except Exception as e:   # noqa
             return list(self.matches), None, None, type(e).__name__
         # spacing rule exactly as reconstruct() does it, on the same items (a second generator run would
@@ -801,7 +823,7 @@ def roundtrip(gtext, text, kind='lalr'):
     t = p.parse(text)
     snap = snap_tree(t)
     try:
-        out = Reconstructor(p).reconstruct(t)
+        out = with_timeout(20, Reconstructor(p).reconstruct, t)
     except Exception as e:   # noqa
         return 'reconstruct raised %s' % type(e).__name__
     try:
@@ -841,8 +863,8 @@ def lex_case(gtext, texts):
 def correspond(ctx):
     rng = ctx.rng
     lex_cases = []
-    n_class = ctx.scale(110, 1500) * (3 if ctx.widen else 1)
-    n_wide = ctx.scale(40, 600)
+    n_class = ctx.scale(110, 700) * (3 if ctx.widen else 1)
+    n_wide = ctx.scale(40, 250)
     cases, metas = [], []
     rejected = {}
     tried = 0
@@ -866,7 +888,7 @@ def correspond(ctx):
         if 'NAME:' not in g and 'NUMBER:' not in g:
             txs = [tx for tx, _ in r.get('inputs', [])]
             for lc in lex_case(g, txs + [t.replace(' ', '') for t in txs]):
-                if len(lex_cases) >= ctx.scale(150, 3000):
+                if len(lex_cases) >= ctx.scale(150, 1000):
                     break
                 lex_cases.append(lc)
                 ctx.count('minilex', key=lc, nontrivial=True)
@@ -911,7 +933,10 @@ def correspond(ctx):
     bad, errs = ctx.coq_bad_indices('c19', IMPORTS, 'check_case', cases, chunk=ctx.scale(40, 60))
     for e in errs:
         ctx.violation('correspondence:coq-eval', {'error': e}, False, e[:300])
-    for i in bad:
+    already = any(v['found'] for v in ctx.violations if v.get('key') is None)
+    if len(bad) > 4:
+        ctx.note('%d cases disagree with the model; the first 4 are analysed' % len(bad))
+    for i in bad[:4]:
         m = metas[i]
         # which observation point? ask the model again for the verdict code of this case only
         code, _ = ctx.coq_eval('c19_code_%d' % i, IMPORTS, 'check_case_code %s' % cases[i])
@@ -919,7 +944,7 @@ def correspond(ctx):
                 '3': 'match_tree result / written items', '4': 'token sequence / text'}.get((code or '').strip(), 'case')
         # search: does the round trip fail on any input of this grammar (wider sample)?
         found = None
-        for tx in list(m['inputs']) + more_inputs(ctx, m['grammar'], 30):
+        for tx in ([] if already else list(m['inputs']) + more_inputs(ctx, m['grammar'], 30)):
             try:
                 msg = roundtrip(m['grammar'], tx, m['parser'])
             except Exception:   # noqa
